@@ -10,7 +10,6 @@ import (
 	ccom "github.com/polynetwork/poly/native/service/cross_chain_manager/common"
 	"github.com/polynetwork/poly/native/service/governance/neo3_state_manager"
 	hscom "github.com/polynetwork/poly/native/service/header_sync/common"
-	"github.com/polynetwork/poly/native/service/utils"
 
 	"polysim/chain"
 	"polysim/engines/e1"
@@ -517,5 +516,3 @@ func (r *neoRun) svChange(add bool, accts []*account.Account) {
 	r.run.Logf("neo3 state validators now %d", len(r.svCur))
 	r.run.Probe("neo3_state_validators_changed")
 }
-
-var _ = utils.NEO_ROUTER
